@@ -140,6 +140,21 @@ class Runner:
             lines.pop()
         return lines
 
+    def run_pred(self, cases, timeout=900):
+        """the hypotheses of the agreement theorems, evaluated by the extracted model on each case:
+        -> list of (go_like, shared) booleans"""
+        rc, out = self.ctx.run([self.model, self.uni, "pred"], input="\n".join(cases) + "\n", timeout=timeout)
+        if rc != 0:
+            raise RuntimeError("model_scan pred rc=%d: %s" % (rc, out[-300:]))
+        res = []
+        for l in out.split("\n"):
+            f = l.split()
+            if len(f) == 2:
+                res.append((f[0] == "1", f[1] == "1"))
+        if len(res) != len(cases):
+            raise RuntimeError("model_scan pred: %d answers for %d cases" % (len(res), len(cases)))
+        return res
+
     def correspond(self, name, cases, impl=None):
         """K-diff: extracted model vs implementation on the same lines; returns the impl results"""
         impl = impl if impl is not None else self.run_impl(cases)
